@@ -50,6 +50,51 @@ fn run_graph(
     Ok((t, v))
 }
 
+/// Same graph, but compiled by the real compile_context (inputs owned by parties 0 and 1, result revealed to party 0)
+/// and evaluated by one SimpleEvaluator seeded with `seed` (the protocol's internal randomness).
+thread_local! {
+    static COMPILED: std::cell::RefCell<HashMap<String, (Type, ciphercore_base::graphs::Context)>> = std::cell::RefCell::new(HashMap::new());
+}
+
+fn run_graph_compiled(
+    types: Vec<Type>,
+    vals: Vec<Value>,
+    build: impl FnOnce(&Graph, Vec<Node>) -> Result<Node>,
+    seed: u64,
+    owners: Vec<ciphercore_base::mpc::mpc_compiler::IOStatus>,
+    cache_key: String,
+) -> Result<(Type, Value)> {
+    use ciphercore_base::evaluators::simple_evaluator::SimpleEvaluator;
+    use ciphercore_base::evaluators::Evaluator;
+    use ciphercore_base::mpc::mpc_compiler::IOStatus;
+    let mut s = [0u8; 16];
+    s[..8].copy_from_slice(&seed.to_le_bytes());
+    if let Some((t, ctx)) = COMPILED.with(|m| m.borrow().get(&cache_key).cloned()) {
+        let mut ev = SimpleEvaluator::new(Some(s))?;
+        let v = ev.evaluate_context(ctx, vals)?;
+        return Ok((t, v));
+    }
+    let c = create_context()?;
+    let g = c.create_graph()?;
+    let mut ins = vec![];
+    for t in types {
+        ins.push(g.input(t)?);
+    }
+    let o = build(&g, ins)?;
+    let t = o.get_type()?;
+    o.set_as_output()?;
+    g.finalize()?;
+    g.set_as_main()?;
+    c.finalize()?;
+    let r = cc_conform::compile::compile(&c, &owners, &[IOStatus::Party(0)], "Simple")?;
+    // the type the compiled graph actually returns (the judge compares tables column by column, by name)
+    let t = r.mapped.get_context().get_main_graph()?.get_output_node()?.get_type()?;
+    COMPILED.with(|m| m.borrow_mut().insert(cache_key, (t.clone(), r.mapped.get_context())));
+    let mut ev = SimpleEvaluator::new(Some(s))?;
+    let v = ev.evaluate_context(r.mapped.get_context(), vals)?;
+    Ok((t, v))
+}
+
 /// Outcome class of a guarded execution: Ok(x) | Err("err"|"panic", message)
 fn guarded<T>(f: impl FnOnce() -> Result<T> + std::panic::UnwindSafe) -> std::result::Result<T, (String, String)> {
     match catch(f) {
@@ -545,22 +590,39 @@ fn join_job(job: &Json) -> Json {
         .iter()
         .map(|p| (p[0].as_str().unwrap().to_owned(), p[1].as_str().unwrap().to_owned()))
         .collect();
+    let compiled = job.get("compiled").and_then(|x| x.as_u64());
     let mut rec = json!({"id": job["id"], "kind": "join", "grp": job["grp"], "masked": masked as u64,
-        "headers": job["headers"], "A": input_table_json(&a), "B": input_table_json(&b)});
+        "headers": job["headers"], "A": input_table_json(&a), "B": input_table_json(&b),
+        "compiled": if compiled.is_some() { 1 } else { 0 }});
     let (ta, tb) = (table_type(&a), table_type(&b));
     let mut res = serde_json::Map::new();
     for jt in ["Inner", "Left", "Union", "Full"] {
         let (ta, tb, hs) = (ta.clone(), tb.clone(), headers.clone());
         let (va, vb) = (table_value(&a), table_value(&b));
+        let owners_spec = job.get("owners").cloned();
+        let ckey = format!("{}|{}|{}|{}|{}|{}", jt, masked, job["headers"], job["A"], job["B"], job.get("owners").cloned().unwrap_or(Json::Null));
         let r = guarded(move || {
             let hm: HashMap<String, String> = hs.into_iter().collect();
-            run_graph(vec![ta, tb], vec![va?, vb?], move |g, ins| {
+            let build = move |g: &Graph, ins: Vec<Node>| {
                 if masked {
                     g.join_with_column_masks(ins[0].clone(), ins[1].clone(), join_type_of(jt), hm)
                 } else {
                     g.join(ins[0].clone(), ins[1].clone(), join_type_of(jt), hm)
                 }
-            })
+            };
+            match compiled {
+                None => run_graph(vec![ta, tb], vec![va?, vb?], build),
+                Some(seed) => {
+                    let owners = match owners_spec {
+                        Some(o) => o.as_array().unwrap().iter().map(cc_conform::compile::io_status).collect(),
+                        None => vec![
+                            ciphercore_base::mpc::mpc_compiler::IOStatus::Party(0),
+                            ciphercore_base::mpc::mpc_compiler::IOStatus::Party(1),
+                        ],
+                    };
+                    run_graph_compiled(vec![ta, tb], vec![va?, vb?], build, seed, owners, ckey)
+                }
+            }
         });
         res.insert(jt.to_owned(), outcome_json(r));
     }
